@@ -15,6 +15,13 @@ PROP = {'rule': 'rapid state machine (-rapid.steps=50) over the real migration R
          'naming a prepared (pending, allocate-once) Reservation without UID (2/3 of its jobs), spec.podRef without a name, deadlines '
          'given and reached more often. Every PodMigrationJob status write that reaches the API is observed through the client wrapper '
          '(also writes whose response is lost), so clause 2 is checked over the write history, not only at the end of a reconcile. '
+         'TestVerifC17Extended adds target pods that have no node yet (Pending, no PodScheduled condition; they take the evict flow) and '
+         'may be placed later by consuming a reservation of the workload - the job\'s own or another co-located one -, 1-3 rejected '
+         'Evict calls armed from the start, and in half of its cases a reservation interpreter offering the Preemption() extension '
+         'point (real interpreter wrapped; objects report NeedPreemption; scheduler may give up on a reservation: phase Failed + '
+         'Scheduled=False/Unschedulable; Preempt answers from a model not-started/in-progress/complete with the incomplete shapes '
+         '(false,zero,nil) / (false,RequeueAfter,nil) / (false,_,err); an environment event completes the preemption). For such a '
+         'reservation an Evict is accepted only once the preemption has completed. '
          'non-trivial = the job\'s reservation changes state between two reconciles of a Running job, or an API write fails right after a '
          'successful Evict. distinct = FNV-64 fingerprint of the full history.',
  'assumptions': ['API = controller-runtime fake client with status subresources for PodMigrationJob and Reservation, plus server-side UID / '
@@ -29,13 +36,14 @@ PROP = {'rule': 'rapid state machine (-rapid.steps=50) over the real migration R
                  'paused or deleted; Reconcile only (scavenger / arbitrator not driven)',
                  '"an expired job deletes its reservation" is read as: a job failed with reason Timeout leaves no Reservation under the '
                  'reference persisted in its spec; a Reservation whose reference was never persisted (job update failed) is counted, not asserted',
+                 'the given-up reservation state and the Preemption interpreter exist only in TestVerifC17Extended (stock koord-scheduler / stock interpreter never produce them)',
                  'a rejected Evict call counts as an API error for the "at most once without API errors" clause'],
  'units': [{'name': 'migration',
             'pkg': 'pkg/descheduler/controllers/migration',
             'files': ['C17/c17_migration_test.go'],
             'tests': [{'run': 'TestVerifC17History', 'quick': 600, 'quick_shards': 3, 'thorough': 3000, 'steps': 50},
                       {'run': 'TestVerifC17UserInput', 'quick': 600, 'quick_shards': 1, 'thorough': 3000, 'shards': 4, 'steps': 50},
-                      {'run': 'TestVerifC17Extended', 'quick': 600, 'quick_shards': 1, 'thorough': 3000, 'shards': 4, 'steps': 50}]}],
+                      {'run': 'TestVerifC17Extended', 'quick': 600, 'quick_shards': 2, 'thorough': 3000, 'shards': 4, 'steps': 50}]}],
  'manifest': {'technique': 'property-based testing (rapid): state-machine histories of reconcile / environment / clock / restart / '
                            'fault-injection actions against the real controller, with a recording evictor and an independent oracle on the raw API objects',
               'text': 'Generated-history search: every Evict call of a reservation-first job is stamped with the persisted Reservation and pod '
